@@ -533,6 +533,9 @@ def run(ctx: RuleContext, p: Program) -> None:
     ctx.try_rule(_r4.rule_iter_once, p, 'ITER-ONCE')
     from . import nodesem as _ns
     ctx.try_rule(_ns.rule_node_sem, p, 'NODE-SEM', 3 if ctx.tier == 'quick' else 4)
+    from . import c14 as _c14, c11 as _c11
+    ctx.try_rule(_c14.rule_flag_writers, p, 'FLAG-WRITERS')
+    ctx.try_rule(_c11.rule_copy_shallow, p, 'COPY-SHALLOW')
     ctx.not_decided += ['nesting / non-overlap of child spans (runtime)', 'single ownership of every significant token (runtime)',
                         'that every tree leaf is currently in the store (runtime)']
     ctx.assumptions += ['reattach(store) re-binds a whole subtree (COVER-REATTACH)', 'tokens need no reattach (their store is their handle)']
